@@ -204,7 +204,12 @@ func runEnergyScenario(seed uint64, size int, t *Trace) {
 		content := sb.String()
 		// ---- calibration
 		var ct *string
-		switch r.Intn(9) {
+		switch r.Intn(11) {
+		case 9, 10:
+			// ratios far from one: readings of ordinary size scale down to 0, 1, 2 (the sentinel range) or up by orders of magnitude
+			ratios := []string{"1\n1000\n", "1\n24\n", "3\n100\n", "1\n1000000\n", "0\n5\n", "1000000\n1\n", "1\n12\n", "2\n1001\n", "-1\n500\n"}
+			s := ratios[r.Intn(len(ratios))]
+			ct = &s
 		case 7, 8:
 			// shapes on which "line" and "whitespace-separated token" differ, line ends, blank lines, extra lines
 			shapes := []string{"1000 2000\n3\n", "\n1000\n2000\n", "1000\n\n2000\n", " 1000\n2000\n", "1000 \n2000\n", "1000\n 2000\n",
